@@ -300,12 +300,18 @@ class Exec:
         if m and m.group(1) in BINOPS:
             ops = split_top(m.group(2))
             a, b = [self.operand(x, st) for x in ops]
-            if m.group(1) in ("Lt", "Le", "Gt", "Ge", "Shr", "Div", "Rem") and f is not None:
-                for x in ops:
-                    mm = re.search(r"_\d+", x)
-                    ty = f.locals.get(mm.group(0), "") if mm else x.rsplit("_", 1)[-1]
-                    if ty in SIGNED:
-                        raise Unsupported("signed " + m.group(1))
+            signed = False
+            if f is not None:
+                mm = re.search(r"_\d+", ops[0])
+                ty0 = f.locals.get(mm.group(0), "") if (mm and "." not in ops[0]) else ops[0].rsplit("_", 1)[-1]
+                signed = ty0 in SIGNED or dest_ty in SIGNED
+            if signed and m.group(1) in ("Shr", "ShrUnchecked"):
+                return _shift("bvashr")(a, b, dest_ty)
+            if signed and m.group(1) in ("Lt", "Le", "Gt", "Ge"):
+                sop = {"Lt": "bvslt", "Le": "bvsle", "Gt": "bvsgt", "Ge": "bvsge"}[m.group(1)]
+                return Bool("(%s %s %s)" % (sop, a.term, b.term))
+            if signed and m.group(1) in ("Div", "Rem"):
+                raise Unsupported("signed " + m.group(1))
             return BINOPS[m.group(1)](a, b, dest_ty)
         if m and m.group(1) in ("Not", "Neg"):
             a = self.operand(m.group(2), st)
@@ -330,11 +336,23 @@ class Exec:
         if m:
             a = self.operand(m.group(1), st)
             w = INT_W.get(m.group(2))
+            if m.group(3) == "IntToInt" and isinstance(a, Bool) and w:
+                return BV("(ite %s (_ bv1 %d) (_ bv0 %d))" % (a.term, w, w), w)
             if m.group(3) == "IntToInt" and isinstance(a, BV) and w:
                 if w == a.width:
                     return BV(a.term, w)
                 if w < a.width:
                     return BV("((_ extract %d 0) %s)" % (w - 1, a.term), w)
+                src_ty = ""
+                mm = re.search(r"_\d+", m.group(1))
+                if f is not None and mm:
+                    src_ty = f.locals.get(mm.group(0), "")
+                if not src_ty:
+                    src_ty = m.group(1).rsplit("_", 1)[-1]
+                if src_ty in SIGNED:
+                    return BV("((_ sign_extend %d) %s)" % (w - a.width, a.term), w)
+                if src_ty in INT_W:
+                    return BV("((_ zero_extend %d) %s)" % (w - a.width, a.term), w)
                 raise Unsupported("widening cast needs signedness: " + r)
             raise Unsupported("cast " + r)
         m = re.fullmatch(r"([\w:<>, ]+?) \{ (.*) \}", r)
@@ -593,7 +611,7 @@ def _with_overflow(op):
 BINOPS = {
     "BitAnd": _arith("bvand"), "BitOr": _arith("bvor"), "BitXor": _arith("bvxor"),
     "Add": _arith("bvadd"), "Sub": _arith("bvsub"), "AddUnchecked": _arith("bvadd"), "SubUnchecked": _arith("bvsub"),
-    "Shl": _shift("bvshl"), "Shr": _shift("bvlshr"), "ShlUnchecked": _shift("bvshl"),
+    "Shl": _shift("bvshl"), "Shr": _shift("bvlshr"), "ShlUnchecked": _shift("bvshl"), "ShrUnchecked": _shift("bvlshr"),
     "Eq": _cmp("=", "="), "Ne": _ne,
     "Lt": _cmp("bvult", "bvslt"), "Le": _cmp("bvule", "bvsle"), "Gt": _cmp("bvugt", "bvsgt"), "Ge": _cmp("bvuge", "bvsge"),
     "AddWithOverflow": _with_overflow("bvadd"), "SubWithOverflow": _with_overflow("bvsub"),
